@@ -32,11 +32,18 @@ Record olget := mkLG { lg_key : bytes; lg_fresh : get_res; lg_reopen : get_res }
 (* the real bloom package on the run's keys: queried key, MightHave on the filter, MightHave after Encode/Decode *)
 Record obloom := mkB { bl_key : bytes; bl_has : bool; bl_has_dec : bool }.
 
+(* Table.Get on table [fg_t] (re-opened over a filesystem whose k-th ReadAt fails once, for k = 0,1,2,... until the
+   lookup finishes without reaching the failing read): number of runs that reported an error, and every other outcome *)
+Record ofget := mkFG { fg_t : N; fg_key : bytes; fg_errs : N; fg_outs : list get_res }.
+(* ScanPrefix under the same single read faults: per run, whether an error was reported and what was yielded *)
+Record ofscan := mkFS { fs_t : N; fs_prefix : bytes; fs_runs : list (bool * list entry) }.
+
 Inductive wread := mkR (file : N) (after : N) (res : wal_res).
 
 Inductive case :=
 | TabC (deep : bool) (es : list entry) (target : N)            (* target 0 = TableWriter.Write, else WriteRun *)
        (tables : list otable) (lookups : list olookup) (scans : list oscan) (blooms : list obloom) (lgets : list olget)
+       (fgets : list ofget) (fscans : list ofscan)
 | WalC (deep : bool) (s0 : N) (ops : list wop) (files : list bytes) (reads : list wread).
 
 (* ---------- equality tests ---------- *)
@@ -145,7 +152,8 @@ Definition opt_concat (l : list (option (list entry))) : option (list entry) :=
   fold_right (fun o acc => match o, acc with Some x, Some y => Some (x ++ y) | _, _ => None end) (Some []) l.
 
 Definition check_tab (deep : bool) (es : list entry) (target : N) (ts : list otable)
-           (lookups : list olookup) (scans : list oscan) (blooms : list obloom) (lgets : list olget) : list N :=
+           (lookups : list olookup) (scans : list oscan) (blooms : list obloom) (lgets : list olget)
+           (fgets : list ofget) (fscans : list ofscan) : list N :=
   let chunks := if target =? 0 then [es] else write_run es target in
   let mts := if deep then map write_table chunks else map light_table chunks in
   let ochunks := map scan_of ts in
@@ -178,6 +186,18 @@ Definition check_tab (deep : bool) (es : list entry) (target : N) (ts : list ota
                           oentries_eqb (sc_lreopen s) (Some (scan_spec es (sc_prefix s)))) scans) 112 ++
   flag (forallb (fun g => get_res_eqb (lg_fresh g) (get_spec es (lg_key g)) &&
                           get_res_eqb (lg_reopen g) (get_spec es (lg_key g))) lgets) 113 ++
+  (* under one transient read failure a lookup / scan reports the error or answers correctly, never wrongly *)
+  flag (forallb (fun g => match nth_table ts (fg_t g) with
+                          | None => false
+                          | Some t => forallb (fun r => get_res_eqb r (get_spec (scan_of t) (fg_key g))) (fg_outs g)
+                          end) fgets) 114 ++
+  flag (forallb (fun f => match nth_table ts (fs_t f) with
+                          | None => false
+                          | Some t =>
+                              let want := scan_spec (scan_of t) (fs_prefix f) in
+                              forallb (fun r : bool * list entry => if fst r then entries_eqb (snd r) (firstn (length (snd r)) want)
+                                                else entries_eqb (snd r) want) (fs_runs f)
+                          end) fscans) 115 ++
   (* split tables: none empty unless the run is empty, ranges = first/last key, disjoint and ascending *)
   flag (match es with [] => true | _ => forallb (fun c => negb (Nat.eqb (length c) 0)) ochunks end) 106 ++
   flag (forallb (fun t => range_is_first_last (ot_doc t) (ot_scan t)) ts &&
@@ -234,7 +254,8 @@ Definition check_wal (deep : bool) (s0 : N) (ops : list wop) (files : list bytes
 
 Definition check_case (c : case) : list N :=
   match c with
-  | TabC deep es target ts lookups scans blooms lgets => check_tab deep es target ts lookups scans blooms lgets
+  | TabC deep es target ts lookups scans blooms lgets fgets fscans =>
+      check_tab deep es target ts lookups scans blooms lgets fgets fscans
   | WalC deep s0 ops files reads => check_wal deep s0 ops files reads
   end.
 
